@@ -76,6 +76,9 @@ pub enum Repair {
     RepointPristine,
     /// restore the bytes and call set_rules_dir on the same directory again
     RestoreRepoint,
+    /// put the original file back *with its original modification time* (a rename back, cp -p, a restored backup) and set
+    /// CheckRuleFiles=All
+    RestoreOriginalTime,
 }
 
 #[derive(Clone, Debug, Serialize, Deserialize)]
@@ -346,8 +349,16 @@ pub fn apply_fault(original: &[u8], fault: &Fault) -> Option<Vec<u8>> {
     }
 }
 
+fn original_times() -> &'static Mutex<HashMap<String, SystemTime>> {
+    static T: OnceLock<Mutex<HashMap<String, SystemTime>>> = OnceLock::new();
+    T.get_or_init(|| Mutex::new(HashMap::new()))
+}
+
 fn inject(private: &str, case: &Case, original: &[u8]) -> bool {
     let path = format!("{}/{}", private, case.file);
+    if let Ok(t) = std::fs::metadata(&path).and_then(|m| m.modified()) {
+        original_times().lock().unwrap().insert(path.clone(), t);
+    }
     match &case.fault {
         Fault::RulesDirMissing => true,
         Fault::Deleted => std::fs::remove_file(&path).is_ok(),
@@ -359,6 +370,19 @@ fn inject(private: &str, case: &Case, original: &[u8]) -> bool {
             }
             _ => false,
         },
+    }
+}
+
+fn restore_with_original_time(private: &str, case: &Case, original: &[u8]) {
+    if case.fault == Fault::RulesDirMissing {
+        return;
+    }
+    let path = format!("{}/{}", private, case.file);
+    write_with_new_mtime(&path, original);
+    if let Some(t) = original_times().lock().unwrap().get(&path).copied() {
+        if let Ok(f) = std::fs::File::options().write(true).open(&path) {
+            let _ = f.set_modified(t);
+        }
     }
 }
 
@@ -619,7 +643,7 @@ impl C14 {
         // repair
         res.secondary = secondary;
         let mut repair = case.repair;
-        if repair == Repair::RestoreCheckAll && !rules_ok {
+        if (repair == Repair::RestoreCheckAll || repair == Repair::RestoreOriginalTime) && !rules_ok {
             repair = Repair::RestoreRepoint; // no preference can be set before set_rules_dir succeeded
         }
         if case.fault == Fault::RulesDirMissing {
@@ -648,6 +672,12 @@ impl C14 {
                     return res;
                 }
             }
+            Repair::RestoreOriginalTime => {
+                restore_with_original_time(private, case, original);
+                if !step("set_preference(CheckRuleFiles,All)", api::set_pref("CheckRuleFiles", "All"), &mut res) {
+                    return res;
+                }
+            }
             Repair::RepointPristine => {
                 if !step("set_rules_dir(pristine)", api::set_rules_dir(REPO_RULES), &mut res) {
                     return res;
@@ -660,7 +690,7 @@ impl C14 {
                 }
             }
         }
-        let final_crf = if repair == Repair::RestoreCheckAll { "All".to_string() } else { case.mid_crf.clone().unwrap_or(case.crf.clone()) };
+        let final_crf = if repair == Repair::RestoreCheckAll || repair == Repair::RestoreOriginalTime { "All".to_string() } else { case.mid_crf.clone().unwrap_or(case.crf.clone()) };
         for (k, v) in config_prefs(case, &final_crf) {
             if !step(&format!("set_preference({},{})", k, v), api::set_pref(k, &v), &mut res) {
                 return res;
@@ -740,7 +770,7 @@ impl Property for C14 {
             prop_oneof![Just(Timing::BeforeLoad), Just(Timing::AfterLoad)],
             prop_oneof![4 => Just("All"), 2 => Just("Prefs"), 1 => Just("None")],
             prop_oneof![3 => Just(None), 1 => Just(Some("Prefs")), 1 => Just(Some("All")), 1 => Just(Some("None"))],
-            prop_oneof![3 => Just(Repair::RestoreCheckAll), 2 => Just(Repair::RepointPristine), 2 => Just(Repair::RestoreRepoint)],
+            prop_oneof![3 => Just(Repair::RestoreCheckAll), 2 => Just(Repair::RepointPristine), 2 => Just(Repair::RestoreRepoint), 2 => Just(Repair::RestoreOriginalTime)],
             0..EXPRS.len(),
         )
             .prop_map(move |(ci, fpick, fault, timing, crf, mid, repair, expr)| {
